@@ -238,6 +238,23 @@ fn generate(thorough: bool) -> (String, Vec<Probe>, usize) {
     g.probe("Outer::WithFields(1, 2)", "tuple variant", "variant-snake-case", "with_fields", true);
     g.probe("Outer::WithNamed { x: 1 }", "struct variant", "variant-snake-case", "with_named", true);
     g.probe("Outer::Table", "Table beside flattened variants", "table-from-type-name", "outer", true);
+    // (3b) the special variant `Table` carrying (ignored) payload, and attributes that are not the first attribute of their
+    //      item (a doc comment or a lint attribute comes first)
+    g.src.push_str("#[derive(Iden)]\nenum PayT { Table(u32), Id }\n#[derive(IdenStatic, Clone, Copy)]\nenum PayN { Table { shard: u8 }, Id }\n#[derive(Iden)]\n#[iden = \"acct\"]\nenum PayR { Table(u32, u32), Other }\n");
+    g.n_types += 3;
+    g.probe("PayT::Table(3)", "Table variant with tuple payload", "table-from-type-name", "pay_t", false);
+    g.probe("PayT::Id", "variant beside Table with payload", "variant-snake-case", "id", false);
+    g.probe("PayN::Table { shard: 1 }", "Table variant with named payload", "table-from-type-name", "pay_n", true);
+    g.probe("PayR::Table(1, 2)", "Table variant with payload under a container rename", "table-from-container-rename", "acct", false);
+    g.src.push_str("/// documented\n#[derive(Iden)]\n/// more documentation\n#[allow(dead_code)]\n#[iden = \"inv\"]\nenum DocInvoice {\n    /// the table\n    Table,\n    /// the number\n    #[allow(dead_code)]\n    #[iden = \"inv_no\"]\n    Number,\n    /// renamed\n    #[iden(rename = \"amt\")]\n    Amount,\n    /// by method\n    #[method = \"extra_name\"]\n    Extra,\n    /// flattened\n    #[iden(flatten)]\n    Inner(Vr2),\n    Plain,\n}\nimpl DocInvoice { fn extra_name(&self) -> &str { \"x_tra\" } }\n#[derive(Iden)]\nenum Vr2 { #[iden = \"deep\"] Deep }\n/// a documented unit struct\n#[derive(IdenStatic, Clone, Copy)]\n#[allow(dead_code)]\n#[iden = \"doc_unit\"]\nstruct DocUnit;\n");
+    g.n_types += 3;
+    g.probe("DocInvoice::Table", "container rename after doc comments", "table-from-container-rename", "inv", false);
+    g.probe("DocInvoice::Number", "variant rename after a doc comment and a lint attribute", "variant-rename", "inv_no", false);
+    g.probe("DocInvoice::Amount", "variant rename (list form) after a doc comment", "variant-rename", "amt", false);
+    g.probe("DocInvoice::Extra", "method attribute after a doc comment", "method", "x_tra", false);
+    g.probe("DocInvoice::Inner(Vr2::Deep)", "flatten attribute after a doc comment", "flatten", "deep", false);
+    g.probe("DocInvoice::Plain", "variant beside documented variants", "variant-snake-case", "plain", false);
+    g.probe("DocUnit", "unit struct rename after a doc comment and a lint attribute", "unit-struct-rename", "doc_unit", true);
     // (4) enum_def
     // canonical snake-case names and names a snake-case conversion would change (the identifier is the field as written)
     let fields = ["a", "ab_c", "a1", "x_y_z9", "camel", "_id", "shard__key", "type_", "userId"];
